@@ -595,3 +595,23 @@ func liftBoolResult(reg *Region, h *ssa.Function, cs *ssa.Call, ri int, cuts *Cu
 		}
 	}
 }
+
+// loadRangeArgs: the (start, limit) arguments of a call of (*Task).load: the last two unsigned
+// integers of the argument list; start is nil when the range start is not handed over as a
+// number (the recorded position is passed as a whole and load derives the start itself).
+func loadRangeArgs(call *ssa.Call) (start, limit ssa.Value) {
+	args := call.Call.Args
+	isU64 := func(v ssa.Value) bool {
+		b, ok := v.Type().Underlying().(*types.Basic)
+		return ok && b.Info()&types.IsInteger != 0
+	}
+	n := len(args)
+	if n == 0 || !isU64(args[n-1]) {
+		return nil, nil
+	}
+	limit = args[n-1]
+	if n >= 2 && isU64(args[n-2]) {
+		start = args[n-2]
+	}
+	return
+}
